@@ -460,3 +460,25 @@ Theorem c04_switch_case_breaks_partial :
 Proof. exact case_breaks_forward. Qed.
 Print Assumptions c04_switch_case_breaks_partial.
 
+
+(* ==== two-direction forms of the encoding theorems above (coq/Target/ContinueForwardConv.v, SwitchFormsConv.v):
+   the CONVERSE of every `_partial` statement is proved too - a terminating run of the emitted form comes from a
+   terminating run of the IR form with the related result - so the emitted form terminates with a result exactly
+   when the IR form does (it cannot terminate where the source diverges or fails).  Same side conditions. *)
+Require Import Naga.Target.ContinueForwardConv Naga.Target.SwitchFormsConv Naga.Target.ExamplesConv.
+
+(* inserted `break;` after every non-fall-through case that does not end in a terminator: emitted switch <-> IR switch,
+   same result *)
+Theorem c04_switch_case_breaks :
+  forall (state R : Type) (sel : state -> result (option nat))
+         (cs : list (list (Structured.stmt state R) * bool)) (st : state) (r : Structured.outcome R * state),
+  mono_c cs -> (evals_s (Switch sel (enc_cases cs)) st r <-> evals_s (Switch sel cs) st r).
+Proof. exact case_breaks_iff. Qed.
+Print Assumptions c04_switch_case_breaks.
+
+Example c04_switch_case_breaks_nonvacuous :
+  mono_c ex_cases /\
+  enc_cases ex_cases = ((Structured.Continue :: nil, true) :: (a_store :: Structured.Break :: nil, true) :: nil)%list /\
+  run_stmt 10 (Switch ex_sel ex_cases) (mkx 2 5 true (0, 0)%Z) = Done (Structured.ONormal, mkx 2 7 true (0, 0)%Z) /\
+  run_stmt 10 (Switch ex_sel (enc_cases ex_cases)) (mkx 2 5 true (0, 0)%Z) = Done (Structured.ONormal, mkx 2 7 true (0, 0)%Z).
+Proof. exact (conj ex_mono_cases (conj ex_enc_cases (conj ex_case_breaks_ir_run ex_case_breaks_enc_run))). Qed.
